@@ -186,6 +186,7 @@ type Job struct {
 	MaxPaths int
 	MaxDepth int
 	Artificial bool
+	Filter     func(assertID string) bool // assertions outside the property under check are skipped
 	AllocLimit int         // cells: a single allocation above this is reported (0 = no limit)
 	NoSummary  bool        // execute blockHash/blockHashHC bodies instead of their uninterpreted summary
 	Fixed      []TapeEntry // concrete mode (translator validation): inputs bound to these values
@@ -300,6 +301,19 @@ type Sched struct {
 	timeout int
 	failures, maxFailures int
 	stoppedEarly bool
+	timedOut     bool
+	deadline     time.Time
+	budget       time.Duration
+}
+
+func (s *Sched) isClosed() bool {
+	s.mu.Lock()
+	defer s.mu.Unlock()
+	if !s.closed && !s.deadline.IsZero() && time.Now().After(s.deadline) {
+		s.closed = true
+		s.timedOut = true
+	}
+	return s.closed
 }
 
 func NewSched(timeoutMs int) *Sched {
@@ -332,6 +346,10 @@ func (s *Sched) push(items ...WorkItem) {
 func (s *Sched) pop() (WorkItem, bool) {
 	s.mu.Lock()
 	defer s.mu.Unlock()
+	if !s.closed && !s.deadline.IsZero() && time.Now().After(s.deadline) {
+		s.closed = true
+		s.timedOut = true
+	}
 	if s.closed {
 		return WorkItem{}, false
 	}
@@ -405,6 +423,9 @@ func (s *Sched) runAll(jobs []*Job, nworkers int) {
 		j.res.Reached = map[string]int{}
 		j.res.Funcs = map[string]int{}
 		j.reachWit = map[string]int{}
+	}
+	if s.deadline.IsZero() && s.budget > 0 {
+		s.deadline = time.Now().Add(s.budget)
 	}
 	// push in reverse so that the first job is popped first
 	for i := len(jobs) - 1; i >= 0; i-- {
@@ -595,6 +616,7 @@ func (wk *Worker) runPath(it WorkItem) (pr *PathResult, pending []WorkItem, func
 	if j.MaxEnum == 0 {
 		j.MaxEnum = 64
 	}
+	ex.sched = wk.s
 	wk.sv.where = func() string {
 		w := ""
 		for f := ex.curFrame; f != nil && len(w) < 200; f = f.caller {
@@ -624,7 +646,7 @@ func (wk *Worker) runPath(it WorkItem) (pr *PathResult, pending []WorkItem, func
 			case pathAbort:
 				pr.End = e.reason
 				pr.Detail = e.detail
-				if e.reason == "solver" || e.reason == "steps" {
+				if e.reason == "solver" || e.reason == "steps" || (e.reason == "budget" && wk.s.timedOut) {
 					pr.Inconclusive = append(pr.Inconclusive, e.reason+": "+e.detail)
 				}
 				if e.reason == "unwind" {
@@ -854,6 +876,9 @@ func (ex *Exec) checkViolation(extra ...*Term) (Result, *Tape) {
 }
 
 func (ex *Exec) vfAssert(id string, c *Term, kf string, inClass *Term) {
+	if ex.job.Filter != nil && !ex.job.Filter(id) {
+		return // belongs to another property's check of the same harness
+	}
 	ex.path.Asserts++
 	if c.IsTrue() {
 		return
